@@ -318,7 +318,7 @@ func genC08(o *cw) {
 func (r2 *G) dummy() {}
 
 // C09: string functions
-var alphabet = []string{"", "a", "ab", "abc", "abcabc", " ", "  a  b ", "a b", "-", "a-b", "1", "12345", "AbC", "xyzzy", "\t a \n", "ba", "c", "bc", "aaa"}
+var alphabet = []string{"", "a", "ab", "abc", "abcabc", " ", "  a  b ", "a b", "-", "a-b", "1", "12345", "AbC", "xyzzy", "\t a \n", "ba", "c", "bc", "aaa", "a\tb", "a \n\nb", "a\r\nb c", "\ta\t\tb\n"}
 
 func (g *G) sExpr(depth int) gen.Ex {
 	if depth <= 0 || g.r.Chance(30) {
@@ -593,6 +593,11 @@ func genC15(o *cw) {
 	for _, pat := range []string{"(", "[a", "a(b|c", "*", "a{2", "(?P<n", "\\"} {
 		for _, f := range []string{"matches(., concat('%s', ''))", "replace(., '%s', 'x')", "matches(string(*), concat('%s', @x))", "replace('abc', concat('%s',''), '$1')", "count(//*[matches(., concat('%s', ''))])"} {
 			emit(fmt.Sprintf(f, pat), "bad-regex-runtime")
+		}
+	}
+	for _, tail := range []string{"\u00a0", "\f", "\u0085", "\u2003", "\v", "\u3000", " \u00a0", "\u00a0 "} {
+		for _, f := range []string{"normalize-space('a b%s')", "normalize-space('%s')", "normalize-space('a%sb%s')", "normalize-space(concat('x ', '%s'))", "string-length(normalize-space(' a%s'))", "translate('a%s', '%s', 'x')", "substring('a%s', 2)", "lower-case('A%s')", "number('1%s')", "contains('a%s', '%s')"} {
+			emit(strings.ReplaceAll(f, "%s", tail), "unicode-space-tail")
 		}
 	}
 	for _, u := range []string{"\u00e9", "x\u20acy", "\u4e2d\u6587", "\u00e9\u00e9\u00e9"} {
@@ -878,10 +883,23 @@ func genC10(o *cw) {
 		o.c("evalall", d, "/", "-", gen.Str(e, gen.Mode{Abbrev: true}), ga, "abbrev")
 		o.c("evalall", d, "/", "-", gen.Str(e, gen.Mode{Abbrev: false}), ga, "expanded")
 	}
+	// numbers written with a leading dot, as the very last token and followed by white space / a closer
+	for _, e := range []string{"1 div .25", ".125 + .125", ".7 < .75", "-.25", ".5", "2 * .5", "1 - .75", "concat('x', .25)"} {
+		gi++
+		gv := fmt.Sprintf("v%d", gi)
+		o.c("evalall", ds[0], "/", "-", e, gv, "leading-dot")
+		o.c("evalall", ds[0], "/", "-", e+" ", gv, "leading-dot")
+		o.c("evalall", ds[0], "/", "-", "("+e+")", gv, "leading-dot")
+		o.c("parse", nil, "/", "-", e, "", "leading-dot")
+	}
 	// the abbreviations one by one
 	pairs := [][2]string{{"a", "child::a"}, {"@x", "attribute::x"}, {".", "self::node()"}, {"..", "parent::node()"}, {"//b", "/descendant-or-self::node()/child::b"},
 		{"a//b", "child::a/descendant-or-self::node()/child::b"}, {"*/@*", "child::*/attribute::*"}, {"../b", "parent::node()/child::b"}, {".//b", "self::node()/descendant-or-self::node()/child::b"},
-		{"//@x", "/descendant-or-self::node()/attribute::x"}, {"a[b]", "child::a[child::b]"}, {"a[@x='1']", "child::a[attribute::x='1']"}, {"//b[.='1']", "/descendant-or-self::node()/child::b[self::node()='1']"}}
+		{"//@x", "/descendant-or-self::node()/attribute::x"}, {"a[b]", "child::a[child::b]"},
+		{"(/)//a", "(/)/descendant-or-self::node()/child::a"}, {"(/)//comment()", "(/)/descendant-or-self::node()/child::comment()"}, {"(//b)//.", "(//b)/descendant-or-self::node()/self::node()"},
+		{"(*)//text()", "(*)/descendant-or-self::node()/child::text()"}, {"(//b)//self::text()", "(//b)/descendant-or-self::node()/self::text()"}, {"(.)//..", "(.)/descendant-or-self::node()/parent::node()"},
+		{"reverse(//b)//c", "reverse(//b)/descendant-or-self::node()/child::c"}, {"(/)//*", "(/)/descendant-or-self::node()/child::*"}, {"a//.", "child::a/descendant-or-self::node()/self::node()"},
+		{".//following-sibling::b", "self::node()/descendant-or-self::node()/following-sibling::b"}, {"*//..", "child::*/descendant-or-self::node()/parent::node()"}, {"a[@x='1']", "child::a[attribute::x='1']"}, {"//b[.='1']", "/descendant-or-self::node()/child::b[self::node()='1']"}}
 	for _, pr := range pairs {
 		for _, d := range ds {
 			gi++
@@ -1001,6 +1019,7 @@ func genC04(o *cw) {
 	ds := append(handDocs(o, false)[4:], valueDocs(o)[:3]...)
 	ds = append(ds, ctxDocs(o)...)
 	ds = append(ds, fanDocs(o)[:3]...)
+	emitRegexDocs(o, 60*o.tier)
 	for i := 0; i < 700*o.tier; i++ {
 		var e gen.Ex
 		switch o.r.Intn(9) {
@@ -1024,6 +1043,23 @@ func genC04(o *cw) {
 			e = gen.Filter{E: gen.Paren{E: gen.Path{Abs: true, Steps: []gen.Step{{Axis: "child", Test: g.test("child"), DSlash: true}}}}, Preds: []gen.Ex{num(1 + g.r.Intn(3))}}
 		default:
 			e = gen.Call{Name: "reverse", Args: []gen.Ex{g.relPath(allAxes, 1, 2, 30)}}
+		}
+		if i%9 == 0 {
+			// a filter over a filter with last(): the only query with state that Evaluate does not rewind
+			inner := gen.Path{Abs: true, Steps: []gen.Step{{Axis: "child", Test: g.test("child"), DSlash: true, Preds: []gen.Ex{(&G{r: g.r, predAxes: flatAxes}).boolPred(1)}}}}
+			var f gen.Ex = gen.Filter{E: gen.Paren{E: inner}, Preds: []gen.Ex{gen.Call{Name: "last"}}}
+			if o.r.Chance(50) {
+				inner.Steps[0].Preds = append(inner.Steps[0].Preds, gen.Call{Name: "last"})
+				f = inner
+			}
+			switch o.r.Intn(3) {
+			case 0:
+				e = gen.Call{Name: "string", Args: []gen.Ex{f}}
+			case 1:
+				e = gen.Call{Name: "count", Args: []gen.Ex{f}}
+			default:
+				e = f
+			}
 		}
 		switch o.r.Intn(5) {
 		case 0:
